@@ -91,3 +91,12 @@ Proof.
            {| lp_offset := 250; lp_link := 0%Z |} ], 100.
   unfold lpo. cbn. split; [auto|lra].
 Qed.
+
+(* the state every simulation starts from (TrainState::new, row 0 of the history): the rear is one train length
+   behind the front, the front at or beyond one train length and at or beyond the requested initial offset *)
+Theorem C12_initial_state : forall (length ms mr mf t0 : R) offset0 v0,
+  let st := ts_new length ms mr mf t0 offset0 v0 in
+  k_offset_back (ts_k st) = k_offset (ts_k st) - p_length (ts_p st) /\
+  length <= k_offset (ts_k st) /\ (forall o, offset0 = Some o -> o <= k_offset (ts_k st)) /\
+  k_total_dist (ts_k st) = 0 /\ k_i (ts_k st) = 1%nat /\ 0 <= k_offset_back (ts_k st).
+Proof. exact ts_new_rear. Qed.
